@@ -128,6 +128,7 @@ func faultSites(repo, outDir string) error {
 	var polls []pollRow
 	var guards []guardRow
 	var engines []engineRow
+	var heads []string // "file:func" of functions whose FIRST statement is a context poll of the checked shape
 	pollSeen := map[token.Pos]bool{}
 	for _, d := range faultDirs {
 		ents, err := os.ReadDir(filepath.Join(repo, d))
@@ -157,6 +158,15 @@ func faultSites(repo, outDir string) error {
 				fn := fd.Name.Name
 				if fd.Recv != nil && len(fd.Recv.List) > 0 {
 					fn = fsTypeString(fd.Recv.List[0].Type) + "." + fn
+				}
+				if hasCtx && len(fd.Body.List) > 0 {
+					if ifs, ok := fd.Body.List[0].(*ast.IfStmt); ok {
+						if as, ok := ifs.Init.(*ast.AssignStmt); ok && len(as.Rhs) == 1 && isCtxErrCall(as.Rhs[0]) {
+							if v, ok := condIsErrNotNil(ifs.Cond); ok && lastReturnsError(ifs.Body, v) {
+								heads = append(heads, filepath.Base(d)+"."+fn)
+							}
+						}
+					}
 				}
 				// statement-level scan with knowledge of the enclosing statement list (for ordering)
 				var scanBlock func(list []ast.Stmt)
@@ -278,6 +288,11 @@ func faultSites(repo, outDir string) error {
 	sb.WriteString("]\n\ndef engineCalls : List EngineCall := [\n")
 	for i, e := range engines {
 		fmt.Fprintf(&sb, "  ⟨%s, %s, %s, %d, .%s, %s⟩%s\n", fsStr(e.file), fsStr(e.fn), fsStr(e.callee), e.line, e.shape, fsBool(e.setHeaderAfter), fsComma(i, len(engines)))
+	}
+	sb.WriteString("]\n\n/-- functions (package.func) whose first statement is a context poll of the checked shape -/\ndef headPolls : List String := [\n")
+	sort.Strings(heads)
+	for i, h := range heads {
+		fmt.Fprintf(&sb, "  %s%s\n", fsStr(h), fsComma(i, len(heads)))
 	}
 	fmt.Fprintf(&sb, "]\n\n/-- number of engine-method call expressions found by an independent sweep (must equal engineCalls.length) -/\ndef engineCallExprs : Nat := %d\n", total)
 	sb.WriteString("\nend Zrnt.Gen.FaultSites\n")
